@@ -1,4 +1,5 @@
 import GB.C09.ProofsRT
+import GB.C09.ProofsText
 /-
   C09 — property theorems over the model of the field-level JSON codec (GB/C09/Model.lean, the code
   after fixes D9a–D9h) and the canonical proto3 JSON mapping for one field (GB/C09/Spec.lean).
@@ -385,6 +386,80 @@ theorem C09_encode_stream_stateless (ops : FloatOps) (o : Opts) (k : Kind) (fs :
   · exact encodeStreamFrom_results ops o k fs []
   · have := encodeStreamFrom_written ops o k fs []
     simpa [encodeStream] using this
+
+/-! ### the JSON text layer (Text.lean): reader `parseJSON`, renderer `renderCompact` -/
+
+/-- **The reader reads back what the renderer wrote**: for every value tree whose number literals are JSON numbers,
+    `parseJSON (renderCompact j)` is one value and no rest, and the value is `j` up to the one normalisation the
+    text layer performs: `sanitize` replaces, in strings and member names, every byte that is not part of a
+    well-formed UTF-8 sequence by U+FFFD (the renderer writes `\ufffd` for it). Member order, repeated names,
+    number literals and everything else are kept verbatim. -/
+theorem C09_parse_render (j : J) (hv : numsValid j = true) :
+    parseJSON (renderCompact j) = some (sanitize j, []) :=
+  parseJSON_render j hv
+
+/-- …and on trees whose strings are valid UTF-8 (proto3 strings are) there is no normalisation at all. -/
+theorem C09_parse_render_exact (j : J) (hv : numsValid j = true) (hs : strsValid j = true) :
+    parseJSON (renderCompact j) = some (j, []) := by
+  rw [C09_parse_render j hv, sanitize_valid j hs]
+
+theorem C09_sanitize_valid_utf8 (s : Bytes) (h : validUtf8 s = true) : sanStr s = s :=
+  sanStr_valid s h
+
+/-- More generally the rendered value is read back in front of any text that cannot continue it (`,`, `]`, `}`, end):
+    this is what makes concatenated / newline-separated records readable one by one. -/
+theorem C09_parse_render_then (j : J) (rest : Bytes) (hv : numsValid j = true) (hs : stopB rest = true) (fuel : Nat)
+    (hf : (renderCompact j).length ≤ fuel) :
+    parseValue fuel (renderCompact j ++ rest) = some (sanitize j, rest) :=
+  parseValue_render j fuel rest hv (Nat.le_trans (cost_le j hv) hf) hs
+
+/-- **A compact JSON record contains no raw line feed or carriage return** — in fact no byte below 0x20 at all:
+    every control character inside strings and member names is escaped, the structural output has no white space,
+    number literals consist of digits, sign, `.`, `e`, `E`. (Hypothesis: number literals are JSON numbers — true for
+    everything the encoder writes, `C09_encode_numbers_valid`.) -/
+theorem C09_render_no_raw_newline (j : J) (hv : numsValid j = true) :
+    (10 : UInt8) ∉ renderCompact j ∧ (13 : UInt8) ∉ renderCompact j := by
+  have h := render_noCtl j hv
+  constructor <;> (intro hm; have := h _ hm; revert this; decide)
+
+theorem C09_render_no_control (j : J) (hv : numsValid j = true) : ∀ b, b ∈ renderCompact j → 32 ≤ b :=
+  render_noCtl j hv
+
+/-- a rendered value never starts with a space (or any white space) -/
+theorem C09_render_head (j : J) (hv : numsValid j = true) :
+    ∃ c t, renderCompact j = c :: t ∧ c ≠ 32 ∧ isWS c = false := by
+  obtain ⟨c, t, e, hc⟩ := render_head j hv
+  exact ⟨c, t, e, (start_facts hc).2.2.2.2.1, (start_facts hc).1⟩
+
+/-- every number literal the field encoder writes is a JSON number, provided the float formatter's output is
+    (integers are written by `strconv.FormatInt`: `validNum (showInt i)` for all `i`) -/
+theorem C09_encode_numbers_valid (ops : FloatOps) (hf : ∀ b bits, validNum (ops.fmt b bits) = true) (o : Opts) (k : Kind)
+    (f : Field) (j : J) (h : encode ops o k f = .ok j) : numsValid j = true :=
+  encode_numsValid ops hf o k f j h
+
+/-- Text-level round trip: the bytes the encoder writes for a typed field value are read by the reader as the tree
+    the encoder built (up to `sanitize`), which `decode` turns back into the value (`C09_roundtrip`). -/
+theorem C09_text_roundtrip (ops : FloatOps) (hf : ∀ b bits, validNum (ops.fmt b bits) = true) (o : Opts) (k : Kind)
+    (f : Field) (j : J) (h : encode ops o k f = .ok j) :
+    parseJSON (renderCompact j) = some (sanitize j, []) ∧ (10 : UInt8) ∉ renderCompact j :=
+  ⟨C09_parse_render j (C09_encode_numbers_valid ops hf o k f j h),
+   (C09_render_no_raw_newline j (C09_encode_numbers_valid ops hf o k f j h)).1⟩
+
+/-- the reader on texts the renderer never writes: white space, all escapes, surrogate pairs, lone surrogates,
+    invalid UTF-8, repeated names, trailing text, errors -/
+example : parseJSON [32, 10, 123, 34, 97, 34, 58, 91, 49, 44, 32, 116, 114, 117, 101, 93, 44, 34, 97, 34, 58, 110, 117, 108, 108, 125, 120]
+    = some (.obj [([97], .arr [.num [49], .bool true]), ([97], .null)], [120]) := by rfl   -- ` \n{"a":[1, true],"a":null}x`
+example : parseJSON [34, 92, 117, 100, 56, 51, 100, 92, 117, 100, 101, 48, 48, 34] = some (.str [240, 159, 152, 128], []) := by rfl  -- "\ud83d\ude00"
+example : parseJSON [34, 92, 117, 100, 56, 48, 48, 120, 255, 34] = some (.str [239, 191, 189, 120, 239, 191, 189], []) := by rfl    -- lone surrogate, 0xff
+example : parseJSON [49, 120] = some (.num [49], [120]) := by rfl                      -- 1x
+example : parseJSON [48, 49] = some (.num [48], [49]) := by rfl                        -- 01
+example : parseJSON [91, 48, 49, 93] = none := by rfl                                  -- [01]
+example : parseJSON [91, 49, 44, 93] = none := by rfl                                  -- [1,]
+example : parseJSON [34, 10, 34] = none := by rfl                                      -- raw LF in a string
+example : parseJSON [34, 92, 39, 34] = none := by rfl                                  -- "\'"
+example : parseJSON [49, 46] = none := by rfl                                          -- 1.
+example : renderCompact (.obj [([60, 10], .arr [.str [226, 128, 168, 255, 1]])])
+    = [123, 34, 92, 117, 48, 48, 51, 99, 92, 110, 34, 58, 91, 34, 92, 117, 50, 48, 50, 56, 92, 117, 102, 102, 102, 100, 92, 117, 48, 48, 48, 49, 34, 93, 125] := by rfl
 
 /-! ### non-vacuity: a float environment satisfying the laws; canonical values are accepted -/
 
